@@ -88,14 +88,13 @@ class Obs:
 class C18(Check):
     id = "C18"
     prop_file = "theories/Properties/Properties_C18.v"
-    theorems = ()
     comp = "reshape"
     extract_file = "theories/Extract/Extract_Reshape.v"
     extracted = ("reshape",)
     harness_src = None
     link_parsec = True
-    run_timeout = int(os.environ.get("VERIF_RESHAPE_TIMEOUT", "90"))
-    jobs = int(os.environ.get("VERIF_RESHAPE_JOBS", "8"))
+    run_timeout = int(os.environ.get("VERIF_RESHAPE_TIMEOUT", "300"))   # seconds per run (a run takes 0.5-3 s on an idle machine)
+    jobs = int(os.environ.get("VERIF_RESHAPE_JOBS", "6"))
     # 1 once the repairs of notes/findings/C18-stale-promise.patch are in /repo (the model then follows the repaired code)
     model_fixed = int(os.environ.get("VERIF_C18_FIXED", "0"))
 
@@ -115,7 +114,6 @@ class C18(Check):
             fails.append(Failure("build", "parsec-ptgpp was not built", self.ptgpp))
         self._exe = {}
         self._exe_lock = threading.Lock()
-        self._raw = {}
         return fails
 
     def workroot(self, tag):
@@ -182,7 +180,10 @@ class C18(Check):
     def canonical(self, p, rc, out, err):
         """driver output of all ranks -> the observation line of ocaml/d_reshape.ml"""
         if rc == 124:
-            return "TIMEOUT"
+            # a rank that died (signal, MPI error) can leave the other ranks waiting until the launcher is killed
+            died = any(m in err for m in ("exited on signal", "non-zero exit code", "MPI_ERR", "MPI_ABORT", "Segmentation fault",
+                                          "*** Process received signal"))
+            return "CRASH" if died else "TIMEOUT"
         blocks = {}
         for line in out.splitlines():
             if "| " not in line:
@@ -365,7 +366,7 @@ class C18(Check):
                     cfgs.append((nr, 1 - cfgs[-1][1]))
             mine = []
             for (n, sh) in cfgs:
-                q = G.with_config(p, n, sh, cores=(p.cores if n == 1 else min(p.cores, 2)))
+                q = G.with_config(p, n, sh, cores=(p.cores if n == 1 else (min(p.cores, 2) if n == 2 else 1)))
                 # every conversion the program DECLARES must fit (a program that packs more than it unpacks is
                 # erroneous by itself: MPI truncation)
                 if G.declared(q)[0]:
@@ -485,6 +486,39 @@ class C18(Check):
                 return ("C%d(%d,%d) logged %d bytes" % (key + (len(data),)), "unreadable", None)
             m = p.classes[key[0]].modify
             after[key] = [x ^ (key[0] + 1) for x in data] if m else data
+        # O0: what a class that reads the collection observes (CHANGELOG.ptg.md, "Reading from matrix")
+        for ci, C in enumerate(p.classes):
+            if C.inp[0] != "D":
+                continue
+            _, ty, td = C.inp
+            src, dst = (td or 1), (ty or td)
+            for k in range(p.nt):
+                for r in range(C.R):
+                    t = p.tile(ci, k, r)
+                    init = [(37 * t + 11 * b + 5) & 0xff for b in range(nb)]
+                    ptr, dtt, R = O.tasks[(ci, k, r)]
+                    where = "C%d(%d,%d) <- descA(%d)" % (ci, k, r, t)
+                    if (ty == 0 and td == 0) or dst == 1:
+                        if ptr != "D%d" % t:
+                            return ("%s: no conversion is declared but the task was given a copy (%s) instead of the tile" % (where, ptr),
+                                    "read", "copied")
+                        if R != init:
+                            return ("%s: the tile does not hold its initial content" % where, "read", "data")
+                    else:
+                        if ptr.startswith("D"):
+                            return ("%s: a conversion %s -> %s is declared but the task was given %s" % (where, SHN[src], SHN[dst], ptr),
+                                    "read", "aliased")
+                        n = min(len(sel[src]), len(sel[dst]))
+                        got = set(sel[dst][:n])
+                        for j in range(n):
+                            if R[sel[dst][j]] != init[sel[src][j]]:
+                                return ("%s: declared conversion %s -> %s, byte %d of the copy (selected #%d) is %02x, the tile's selected "
+                                        "#%d is %02x" % (where, SHN[src], SHN[dst], sel[dst][j], j, R[sel[dst][j]], j, init[sel[src][j]]),
+                                        "read", "data")
+                        for b in range(nb):
+                            if b not in got and R[b] != 0xEE:
+                                return ("%s: byte %d of the fresh copy is outside %s but holds %02x" % (where, b, SHN[dst], R[b]),
+                                        "read", "unselected")
         # O1: delivery along every edge
         for ci, C in enumerate(p.classes):
             if C.R != 1:
